@@ -180,6 +180,7 @@ where
         let (c, draws) = commit::<CS>(h, Some(&cm), vec![]);
         let id = h.last();
         if let Some((c, bf)) = c.ok() {
+            commit_sends_only_octets::<CS>(h, &c, &bf.to_bytes(), id);
             let cb = c.to_bytes();
             let k = (cb.len() - 48) / 32;
             let ss: Vec<Scalar> = (0..k).map(|i| sc(&cb[48 + 32 * i..80 + 32 * i])).collect();
@@ -278,6 +279,7 @@ where
             let (c, draws) = commit::<CS>(h, Some(&cm), vec![]);
             let id = h.last();
             if let Some((c, bf)) = c.ok() {
+                commit_sends_only_octets::<CS>(h, &c, &bf.to_bytes(), id);
                 let cb = c.to_bytes();
                 let k = (cb.len() - 48) / 32;
                 let ss: Vec<Scalar> = (0..k).map(|i| sc(&cb[48 + 32 * i..80 + 32 * i])).collect();
@@ -308,6 +310,7 @@ where
             let id = h.last();
             h.stat("C07.commit_absent_list");
             if let Some((c, bf)) = c.ok() {
+                commit_sends_only_octets::<CS>(h, &c, &bf.to_bytes(), id);
                 let cb = c.to_bytes();
                 let bfb = bf.to_bytes();
                 h.expect(bfb != [0u8; 32], "C07.commit_none_zero_blind", "commit(None) returned a zero blind factor", &[id]);
@@ -343,6 +346,22 @@ where
     }
     h.stat_n("C07.random_keys", n as u64);
     let _ = honest_proof::<CS>;
+}
+
+/// what the prover hands over is the commitment-with-proof: its JSON form must not carry anything that the octet
+/// form does not (e.g. the blind factor kept next to the commitment for the prover's convenience)
+fn commit_sends_only_octets<CS: BbsCiphersuite>(h: &mut H, c: &Com<CS>, blind: &[u8], id: u64)
+where
+    CS::Expander: for<'a> ExpandMsg<'a>,
+{
+    let j1 = serde_json::to_value(c).ok();
+    let j2 = Com::<CS>::from_bytes(&c.to_bytes()).ok().and_then(|x| serde_json::to_value(&x).ok());
+    h.expect(j1.is_some() && j1 == j2, "C07.commit_json_extra", "the JSON form of a fresh commitment differs from the JSON form of the same commitment decoded from its octets: it carries something the octets do not", &[id]);
+    if let Ok(t) = serde_json::to_string(c) {
+        let hx = hex::encode(blind);
+        let arr = blind.iter().map(|b| b.to_string()).collect::<Vec<_>>().join(",");
+        h.expect(!t.to_lowercase().contains(&hx) && !t.contains(&arr), "C07.commit_json_blind", "the JSON form of a commitment contains the prover's blind factor", &[id]);
+    }
 }
 
 /// values a fresh process generates from FIXED inputs (must differ between processes)
@@ -712,7 +731,7 @@ where
     }
     // application-chosen / absent api ids, which do not embed the suite: the two suites must still
     // give unrelated sets, and the prefix law must hold in any call order
-    for (nm, api) in [("none", None), ("empty", Some(vec![])), ("custom", Some(b"MY_APP_".to_vec()))] {
+    for (nm, api) in [("none", None), ("empty", Some(vec![])), ("custom", Some(b"MY_APP_".to_vec())), ("binary", Some(vec![0xff, 0x00, 0x80, 0x7f, 0xfe]))] {
         let first = gens::<CS>(h, api.as_deref(), 7).ok().map(|g| g.values.iter().map(g1hex).collect::<Vec<_>>());
         let keep = other_suite(h);
         let second = gens::<CS::Other>(h, api.as_deref(), 5).ok().map(|g| g.values.iter().map(g1hex).collect::<Vec<_>>());
@@ -773,7 +792,9 @@ where
     let cmsgs = rand_msgs(h, 1);
     let blind = [7u8; 32];
     let custom = b"some other api".to_vec();
-    let apis: Vec<(&str, Option<Vec<u8>>)> = vec![("none", None), ("empty", Some(vec![])), ("blind_api", Some(CS::API_ID_BLIND.to_vec())), ("custom", Some(custom))];
+    // (api ids are octet strings, not text: two that differ only in octets that are not valid UTF-8 are different ids)
+    let apis: Vec<(&str, Option<Vec<u8>>)> = vec![("none", None), ("empty", Some(vec![])), ("blind_api", Some(CS::API_ID_BLIND.to_vec())), ("custom", Some(custom)),
+        ("binary_ff", Some(vec![0xff, 0x41, 0x80, 0x00, 0xc3, 0x28])), ("binary_fe", Some(vec![0xfe, 0x41, 0x80, 0x00, 0xc3, 0x28]))];
     let mut outs: Vec<Option<(Vec<Scalar>, Vec<Vec<u8>>)>> = Vec::new();
     for (nm, api) in &apis {
         for (gn, bgn) in [(3usize, 2usize), (1, 1), (4, 4)] {
@@ -802,6 +823,12 @@ where
     }
     if outs.len() >= 2 {
         h.expect(outs[0] == outs[1], "C11.prepare_parameters_none_empty", "prepare_parameters: absent api id differs from the empty one", &[]);
+    }
+    if outs.len() >= 6 {
+        if let (Some(a), Some(b)) = (&outs[4], &outs[5]) {
+            let sa: HashSet<&Vec<u8>> = a.1.iter().collect();
+            h.expect(!b.1.iter().any(|x| sa.contains(x)), "C11.prepare_parameters_binary_ids", "prepare_parameters: two api ids that differ in a non-UTF-8 octet share a generator", &[]);
+        }
     }
 }
 
